@@ -86,3 +86,54 @@ pub fn increment_counter(heights: &[u8], counter: u64) -> Option<u64> {
 pub fn lifetime_for_counter(heights: &[u8], counter: u64) -> u64 {
     skeleton_key(heights, counter).get_lifetime()
 }
+
+/// Scheduler-owned stand-ins for the three names `optimize_message_hash` takes from crossbeam
+/// and `rand` (`scope`, `unbounded`, `OsRng`). Compiled only with `--cfg hbs_lms_verif_shuttle`
+/// (which also needs a manifest that provides the `shuttle` dependency); a block-scope `use`
+/// in the two fast_verify functions then shadows the module-level imports, so that the real
+/// worker and selection code run as shuttle tasks.
+#[cfg(hbs_lms_verif_shuttle)]
+pub mod seam {
+    extern crate std;
+    use std::{any::Any, boxed::Box};
+
+    pub use shuttle::sync::mpsc::channel as unbounded;
+
+    pub struct Scope<'scope, 'env: 'scope>(&'scope shuttle::thread::Scope<'scope, 'env>);
+
+    impl<'scope, 'env> Scope<'scope, 'env> {
+        pub fn spawn<F, T>(&self, f: F) -> shuttle::thread::ScopedJoinHandle<'scope, T>
+        where
+            F: FnOnce(&Scope<'scope, 'env>) -> T + Send + 'scope,
+            T: Send + 'scope,
+        {
+            let inner = self.0;
+            inner.spawn(move || f(&Scope(inner)))
+        }
+    }
+
+    pub fn scope<'env, F, R>(f: F) -> Result<R, Box<dyn Any + Send + 'static>>
+    where
+        F: for<'scope> FnOnce(&Scope<'scope, 'env>) -> R,
+    {
+        Ok(shuttle::thread::scope(|s| f(&Scope(s))))
+    }
+
+    pub struct OsRng;
+
+    impl rand::RngCore for OsRng {
+        fn next_u32(&mut self) -> u32 {
+            shuttle::rand::thread_rng().next_u32()
+        }
+        fn next_u64(&mut self) -> u64 {
+            shuttle::rand::thread_rng().next_u64()
+        }
+        fn fill_bytes(&mut self, dest: &mut [u8]) {
+            shuttle::rand::thread_rng().fill_bytes(dest)
+        }
+        fn try_fill_bytes(&mut self, dest: &mut [u8]) -> Result<(), rand::Error> {
+            shuttle::rand::thread_rng().fill_bytes(dest);
+            Ok(())
+        }
+    }
+}
